@@ -42,7 +42,7 @@ from lts import LTS, skey, strip
 
 MANIFEST = dict(
     technique="TLA+ spec (Glob: recursive glob reference + regex-translation/alternation/anchor/match-discipline implementation layer; GlobCache: files_pattern cache machine) model-checked by TLC over all pattern lists and names up to a bound; expected results for every (pattern list, name) and (document, name) emitted by TLC and replayed into FilesParagraph.matches / parsed paragraphs / find_files_paragraph; recorded histories validated by TLC (TraceGlob)",
-    text="TLC enumerates every list of <= 2 patterns of length <= 2 (thorough: also 1 x <= 3 with names <= 4, 2 x <= 2 with names <= 3, and 2 x <= 3 over a 5-symbol alphabet) over {a, b, /, ., *, ?, backslash, LF} against every name up to length 2 (3-4) and checks that the model of globs_to_re + fullmatch agrees with the recursive glob reference, that exactly the ill-formed lists raise, and that the find loop returns the last matching paragraph of every document of <= 3 paragraphs; the re.match discipline (defect fixed by ae99ec4), a non-DOTALL dot, first-match-wins and a stale cache are rejected by TLC in every run. The expected results printed by TLC are replayed on the real code through create(), text parsing with multi-line Files fields, Files re-assignment (cache) and find_files_paragraph under literal concretizations chosen to hit re.escape and flags; random Unicode histories are validated by TLC against the reference.",
+    text="TLC enumerates every list of <= 2 patterns of length <= 2 over {a, b, /, *, ?, backslash, LF} against every name up to length 2 (thorough, with '.' added: 1 pattern x <= 3 with names <= 4, 2 x <= 2 with names <= 3, and 2 x <= 3 with names <= 3 over the 5 symbols a * ? backslash LF) and checks that the model of globs_to_re + fullmatch agrees with the recursive glob reference, that exactly the ill-formed lists raise, and that the find loop returns the last matching paragraph of every document of <= 3 paragraphs; the re.match discipline (defect fixed by ae99ec4), a non-DOTALL dot, first-match-wins and a stale cache are rejected by TLC in every run. The expected results printed by TLC are replayed on the real code through create(), text parsing with multi-line Files fields, Files re-assignment (cache) and find_files_paragraph under literal concretizations chosen to hit re.escape and flags; random Unicode histories are validated by TLC against the reference.",
     note="Small-scope: bounds above; concretization of literal symbols is sampled (seeded). Unspecified: patterns that are empty or contain whitespace (not representable in a Files field), empty pattern lists, find on documents with an ill-formed paragraph (ValueError or last well-formed match). Trusted: TLC, the 1:1 renaming of literal code points, the projection (bool of matches(), identity index of the returned paragraph).",
     design="5 (C16)")
 
